@@ -191,7 +191,7 @@ func properties() map[string]*PropertyDef {
 		Sequential: true,
 		NeedsClauses: map[string][]string{
 			"cache.(*cache).Set":   {"too_large_refused", "full_without_lru_refused", "stored", "without_lru_reports_replacement", "size_accounting_new_key", "size_accounting_replaced_key", "callback/requires/evicted_entry_gone", "monitor_invariant/count_bound", "nil/", "frame/"},
-			"cache.(*cache).Get":   {"hit_value", "miss_nil", "entries_unchanged"},
+			"cache.(*cache).Get":   {"hit_value", "miss_nil", "entries_unchanged", "seq_hit_becomes_most_recent"},
 			"cache.(*cache).Del":   {"removed", "others_kept", "size_accounting", "nil/"},
 			"cache.(*cache).Clear": {"emptied"},
 			"cache.(*cache).Stats": {"snapshot", "read_only"},
@@ -199,7 +199,7 @@ func properties() map[string]*PropertyDef {
 		},
 		Assumptions: []string{
 			"PARTIAL CLAIM. Decided: no call panics (nil dereference, map write to nil map, bounds) for every Config and every state satisfying the object invariant, including re-entrant calls from OnDelete (state forgotten and invariant re-assumed across the callback); Count <= MaxCount at every unlock; Get/Del/Clear/Stats and the refusal / store cases of Set against the map view; Del's size bookkeeping per entry; hit/miss counted modulo 2^32",
-			"NOT decided (no contract within reach): Size == sum of the live entries' lengths and Size <= MaxSize (needs a finite sum over the map, which the encoding cannot express; only the per-entry deltas are proved); the LRU order of evictions and 'OnDelete exactly once per evicted entry'",
+			"NOT decided (no contract within reach): Size == sum of the live entries' lengths and Size <= MaxSize (needs a finite sum over the map, which the encoding cannot express; only the per-entry deltas are proved); the full LRU order of the list (only 'a hit makes the entry the most recently used one' is proved, relative to the assumed well-formedness of the list) and 'OnDelete exactly once per evicted entry'",
 			"UNCHECKED assumptions: the intrusive list's well-formedness (sentinel_linked, lru_items_linked) is assumed whenever the lock is acquired and at the eviction loop head, and is not re-proved at Unlock; total live bytes <= 2^62",
 			"the unsafe structPtr idiom is modelled as the inverse of taking the address of the embedded listItem field; callers do not modify key/value slices after Set",
 		},
